@@ -30,7 +30,8 @@ EXPLANATION = (
 ASSUMPTIONS = ["std::stable_sort with a strict weak order puts a minimum-rank survivor first", "try_match/normalize_call are pure w.r.t. other candidates"]
 DECIDED = ["a every candidate tried with fresh state", "b outcome table", "c no hash-order decisions", "d consistent binding", "e kind coverage",
            "f result taken from the winner",
-           'l input matcher keeps input semantics at every depth; is-a direction']
+           'l input matcher keeps input semantics at every depth; is-a direction',
+           'm every occurrence of a constrained variable re-checks its constraints']
 NOT_DECIDED = ["rank formula vs specificity for all pattern pairs", "Python-side overloads"]
 
 
